@@ -39,8 +39,16 @@ def gen_loopy(rng):
             n = g.arg() + [("push", rng.choice([3, 7])), "AND"]
             g.count("loop:symbolic")
         body = [("push", 1), ("push", 0x20), "MLOAD", "ADD", ("push", 0x20), "MSTORE"] + (g.stmt(0) if rng.random() < 0.5 else [])
-        items += (n + [("push", cnt), "MSTORE", ("label", top), ("push", cnt), "MLOAD", "ISZERO", ("ref", end), "JUMPI"] + body
-                  + [("push", 1), ("push", cnt), "MLOAD", "SUB", ("push", cnt), "MSTORE", ("ref", top), "JUMP", ("label", end)])
+        if rng.random() < 0.5:
+            # while-shape: exit on the taken branch, loop back by JUMP
+            items += (n + [("push", cnt), "MSTORE", ("label", top), ("push", cnt), "MLOAD", "ISZERO", ("ref", end), "JUMPI"] + body
+                      + [("push", 1), ("push", cnt), "MLOAD", "SUB", ("push", cnt), "MSTORE", ("ref", top), "JUMP", ("label", end)])
+            g.count("loop:while-shape")
+        else:
+            # do-while shape: the back edge is the TAKEN branch of the JUMPI (body runs n+1 times)
+            items += (n + [("push", cnt), "MSTORE", ("label", top)] + body
+                      + [("push", cnt), "MLOAD", "DUP1", ("push", 1), "SWAP1", "SUB", ("push", cnt), "MSTORE", ("ref", top), "JUMPI"])
+            g.count("loop:do-while-shape")
         if rng.random() < 0.5:
             items += g.stmt(1)
     # outcome depends on the iteration count
@@ -94,6 +102,13 @@ def e2e(ctx):
                                         ("push", 1), "SWAP1", "SUB", ("ref", top), "JUMP", ("label", end), "POP"]
                 + asm.if_then(asm.eq_const([("push", 0x20), "MLOAD"], k), [("push", 1), ("push", 0), "SSTORE"]))
 
+    def dowhile_then_fail(k, mask=7):
+        """do { i++ } while (i < (arg0 & mask)); Panic(1) iff i == k — the back edge is the taken branch"""
+        top = asm.fresh("dtop")
+        return ([("label", top), ("push", 1), ("push", 0x20), "MLOAD", "ADD", "DUP1", ("push", 0x20), "MSTORE"]
+                + asm.calldata_arg(0) + [("push", mask), "AND", "GT", ("ref", top), "JUMPI"]
+                + asm.if_then(asm.eq_const([("push", 0x20), "MLOAD"], k), asm.panic(1)))
+
     def warned(run, what):
         text = " ".join(run.warnings) + " " + run.stdout
         return what in text
@@ -104,9 +119,12 @@ def e2e(ctx):
         for loop in (1, 2, 3, 6):
             cases.append((k, loop))
     if ctx.tier == "quick":
-        cases = rng.sample(cases, 8)
+        cases = rng.sample(cases, 10)
     for k, loop in cases:
-        c = TestContract("LoopT", [Fn("check_loop(uint256 n)", loop_then_fail(k))])
+        shape = rng.choice(["while", "dowhile"])
+        ctx.count("e2e:shape-" + shape)
+        body = loop_then_fail(k) if shape == "while" else dowhile_then_fail(k)
+        c = TestContract("LoopT", [Fn("check_loop(uint256 n)", body)])
         run = run_contract_offline(c, loop=loop)
         r = run.results[0]
         ctx.case(("e2e-loop", k, loop))
@@ -114,9 +132,9 @@ def e2e(ctx):
         reachable_within = k <= loop
         flagged = (r.num_bounded_loops or 0) > 0 or warned(run, "loop")
         if r.exitcode == 0 and not flagged:
-            ctx.violation(f"C10|e2e|clean-PASS-with-failure-beyond-loop-bound|regular",
-                          f"check_loop fails after exactly {k} iterations; with --loop {loop} halmos reports PASS without a loop-bound warning",
-                          {"k": k, "loop": loop, "stdout": run.stdout[-600:]})
+            ctx.violation(f"C10|e2e|clean-PASS-with-failure-beyond-loop-bound|regular|{shape}",
+                          f"check_loop ({shape} loop) fails after exactly {k} iterations; with --loop {loop} halmos reports PASS without a loop-bound warning",
+                          {"k": k, "loop": loop, "shape": shape, "stdout": run.stdout[-600:]})
         if reachable_within and r.exitcode == 0:
             ctx.count("e2e:PASS-though-reachable-within-bound")   # that is C03's subject; recorded here as information
     # --width / --depth cuts
@@ -177,7 +195,7 @@ def correspond(ctx):
     from vlib import coremodel, sevmcheck
 
     concrete_loops_uncut(ctx)
-    cfgs = [{"loop": 1}, {"loop": 2}, {"loop": 3}, {"loop": 2, "solver_timeout_branching": 0}]
+    cfgs = [{"loop": 0}, {"loop": 1}, {"loop": 2}, {"loop": 3}, {"loop": 2, "solver_timeout_branching": 0}]
     # (a) under C10 an uncovered input without any flag is this property's violation as well
     def report_as_c10(prop, key, what, replay):
         pass
